@@ -136,6 +136,17 @@ class Tie(object):
       self.expect.append(lambda ans: [("replica-apply", ans["error"])] if "error" in ans else [])
       self.ops.append(dict(obs_op, sid="P"))
       self.expect.append(lambda ans, f=chk_obs: f(ans, exact=False, which="doc-P"))
+      # C08: the Lean decision procedure `schemaConsistentB` on the replica must agree with the
+      # engine-side oracle (engine.schema == build_schema(metadata), no stray column records)
+      eng_ok = (doc.engine_schema() == doc.meta_schema())
+      if eng_ok:
+        mt = doc.engine.fetch_table('_grist_Tables')
+        mc = doc.engine.fetch_table('_grist_Tables_column')
+        eng_ok = not (set(mc.columns['parentId']) - set(mt.row_ids))
+      self.ops.append({"m": "engine", "op": "schema_consistent", "sid": "P"})
+      self.expect.append(lambda ans, eng_ok=eng_ok: [("driver", ans["error"])] if "error" in ans else (
+        [] if ans["consistent"] == eng_ok else
+        [("schema-pred", "model SchemaConsistent=%s, engine oracle=%s" % (ans["consistent"], eng_ok))]))
     for _ in range(len(self.ops) - len(self.expect)):
       self.expect.append(None)
     self._tag_last(index)
